@@ -9,6 +9,7 @@ import (
 
 	"github.com/goghcrow/yae"
 	"github.com/goghcrow/yae/conv"
+	"github.com/goghcrow/yae/interp"
 	"github.com/goghcrow/yae/types"
 	"github.com/goghcrow/yae/val"
 )
@@ -35,11 +36,12 @@ func genHostEnv(r *rand.Rand) hostEnv {
 	f := func() float64 { return hostNumPool[r.Intn(len(hostNumPool))] }
 	h := hostEnv{N1: f(), N2: r.Intn(10), S1: hostStrPool[r.Intn(len(hostStrPool))], B1: r.Intn(2) == 0,
 		T1: time.Unix(int64(r.Intn(2000000000)), 0).UTC(), O: hostInner{f(), r.Intn(2) == 0}}
-	for i := r.Intn(4); i >= 0; i-- {
+	h.Xs = []float64{}
+	for i := r.Intn(5); i > 0; i-- { // possibly empty
 		h.Xs = append(h.Xs, f())
 	}
 	h.Ss = []string{}
-	for i := r.Intn(3); i >= 0; i-- {
+	for i := r.Intn(4); i > 0; i-- { // possibly empty
 		h.Ss = append(h.Ss, hostStrPool[r.Intn(len(hostStrPool))])
 	}
 	h.M = map[string]float64{}
@@ -118,6 +120,17 @@ func historyCase(r *rand.Rand, progs []string, idx int) Case {
 		}
 	}
 	mode := []string{"struct", "typeenv", "map"}[r.Intn(3)]
+	backendName := []string{"vm", "closure", "interp"}[r.Intn(3)]
+	newExpr := func() *yae.Expr {
+		e := yae.NewExpr()
+		switch backendName {
+		case "closure":
+			e.UseClosureCompiler()
+		case "interp":
+			e.UseCompiler(interp.Interp)
+		}
+		return e
+	}
 	var human []string
 	for _, o := range ops {
 		if o.kind == "compile" {
@@ -126,10 +139,10 @@ func historyCase(r *rand.Rand, progs []string, idx int) Case {
 			human = append(human, fmt.Sprintf("c%d(env%d)", o.call, o.env))
 		}
 	}
-	c := Case{Human: "history[" + mode + "] " + strings.Join(human, "; "), Tags: []string{"history:" + mode}, Nontriv: true}
+	c := Case{Human: "history[" + mode + "/" + backendName + "] " + strings.Join(human, "; "), Tags: []string{"history:" + mode, "history:" + backendName}, Nontriv: true}
 
 	// shared objects
-	shared := yae.NewExpr()
+	shared := newExpr()
 	tenvs := make([]*types.Env, nenv)
 	venvs := make([]*val.Env, nenv)
 	maps := make([]map[string]interface{}, nenv)
@@ -203,7 +216,7 @@ func historyCase(r *rand.Rand, progs []string, idx int) Case {
 					outShared = append(outShared, "compiled")
 				}
 				// fresh baseline
-				_, ferr := yae.NewExpr().Compile(progs[o.expr], freshComp(o.env))
+				_, ferr := newExpr().Compile(progs[o.expr], freshComp(o.env))
 				if ferr != nil {
 					outFresh = append(outFresh, "compile-error: "+trim(ferr.Error()))
 				} else {
@@ -223,7 +236,7 @@ func historyCase(r *rand.Rand, progs []string, idx int) Case {
 					a = a + " / repeated: " + b
 				}
 				outShared = append(outShared, a)
-				fcl, ferr := yae.NewExpr().Compile(progs[callSrc[o.call]], freshComp(o.env))
+				fcl, ferr := newExpr().Compile(progs[callSrc[o.call]], freshComp(o.env))
 				if ferr != nil {
 					outFresh = append(outFresh, "no-callable")
 				} else {
